@@ -558,6 +558,9 @@ func init() {
 		return m.zero(fn.Signature.Results().At(0).Type())
 	})
 	reg("(time.Time).UnixNano", func(m *Machine, fn *ssa.Function, a []Value) Value { return m.Nondet("now", 64) })
+	reg("time.After", func(m *Machine, fn *ssa.Function, a []Value) Value {
+		return m.newTimer(fn.Signature.Results().At(0).Type().Underlying().(*types.Chan).Elem())
+	})
 	reg("time.Sleep", func(m *Machine, fn *ssa.Function, a []Value) Value { m.Yield(nil, "Sleep"); return nil })
 
 	// bytealg (assembly in the real build): reference semantics on byte vectors
